@@ -449,7 +449,14 @@ func Check(env *core.Env, rep *core.Report) *core.Result {
 			for k, x := range r {
 				c[k] = x
 			}
-			c["observed"] = r["observed"].([]int)[1:]
+			first := r["observed"].([]int)[0]
+			rest := []int{}
+			for _, o := range r["observed"].([]int) {
+				if o != first {
+					rest = append(rest, o)
+				}
+			}
+			c["observed"] = rest
 			b, _ := json.Marshal(c)
 			r2 := core.MustHold(env, core.TLCOpts{Module: "WatchTable", Config: "WatchTable.cfg", Workers: 1, Files: map[string][]byte{"rows.ndjson": append(b, '\n')}})
 			if p2 := r2.Tagged("BAD"); len(p2) == 0 || !strings.Contains(p2[0], `"bad":[1]`) {
